@@ -136,9 +136,13 @@ def handleSk (op : String) (args : List String) : Option String :=
       let nx ← nx.toNat?; let ny ← ny.toNat?; let nz ← nz.toNat?; let axis ← axis.toNat?; let idx ← idx.toNat?
       if axis > 2 then none
       let g ← stackGrid nx ny nz
-      match getSliceBy CBV.Gen.c19SliceSpec g axis idx with
-      | some l => some (showList (l.map showLoft))
+      match nSlices g axis with
       | none => some "IndexError"
+      | some n =>
+        if idx ≥ n then some "ValueError" else
+        match getSliceBy CBV.Gen.c19SliceSpec g axis idx with
+        | some l => some (showList (l.map showLoft))
+        | none => some "IndexError"
   | _, _ => none
 
 end CBV.C19
